@@ -714,3 +714,114 @@ func TestSlowReaderWithinTheSharedBuffer(t *testing.T) {
 		vlib.Rec.Case(fmt.Sprintf("slow-reader %v", d), true, []string{"slow-reader-within-shared-buffer", "carrier:" + carrier}, func() interface{} { return d })
 	})
 }
+
+// TestConcurrentOpensAfterCarrierLoss: "each makes progress regardless of whether the others are being ... opened" also
+// on the client's recovery path. One connection establishes the session; the carrier is lost (drawn: reset, orderly end, or
+// silence followed by a reset while new opens already hang on the old session); then 2-5 logical connections are opened at
+// the same instant. Every one of them must echo its own data, none may be reset because a neighbour is being opened, and
+// the client may dial at most one new physical connection.
+func TestConcurrentOpensAfterCarrierLoss(t *testing.T) {
+	budget := int32(vlib.Pick(12, 150))
+	var ran int32
+	rapid.Check(t, func(rt *rapid.T) {
+		if atomic.AddInt32(&ran, 1) > budget {
+			return
+		}
+		carrier := []string{vlib.CarTCP, vlib.CarHTTP, vlib.CarTCPTLS}[rapid.IntRange(0, 2).Draw(rt, "carrier")]
+		loss := []string{"cut-rst", "cut-fin", "silent-then-rst"}[rapid.IntRange(0, 2).Draw(rt, "loss")]
+		k := rapid.IntRange(2, 5).Draw(rt, "opens")
+		d := map[string]interface{}{"carrier": carrier, "loss": loss, "concurrent_opens_after_the_loss": k}
+		fail := func(msg string) {
+			vlib.Rec.Violation(map[string]interface{}{"property": "C02", "recovery_case": d, "problem": msg, "log": vlib.Tap.Tail(10)})
+			rt.Fatalf("C02 recovery %v: %s", d, msg)
+		}
+		echo := vlib.NewTarget("echo", vlib.EchoHandler)
+		defer echo.Close()
+		cfg := vlib.PairConfig{Carrier: carrier, ClientInsecure: true, ViaRelay: true,
+			Channels:  []vlib.ChannelSpec{{Name: "echo", Target: echo.URL()}},
+			Listeners: []vlib.ListenerSpec{{Channel: "echo"}}}
+		if strings.Contains(carrier, "tls") {
+			cfg.ServerCert = &vlib.GetPKI().ServerGood
+		}
+		vlib.Tap.Reset()
+		p, err := vlib.StartPair(cfg)
+		if err != nil {
+			if vlib.IsBindError(err) {
+				vlib.Rec.Inconclusive("bind")
+				return
+			}
+			rt.Fatalf("pair start: %v", err)
+		}
+		defer p.Close()
+		roundTrips := func(c net.Conn, tag uint64, n int) string {
+			for i := 0; i < n; i++ {
+				msg := vlib.PRF(tag+uint64(i), 0, 300)
+				c.SetDeadline(time.Now().Add(bound))
+				if _, err := c.Write(msg); err != nil {
+					return fmt.Sprintf("write %d: %v", i, err)
+				}
+				g, err := vlib.ReadFullTimeout(c, len(msg), bound)
+				if vlib.FirstDiff(g, msg) != -1 {
+					return fmt.Sprintf("echo %d: %d of %d bytes (%v)", i, len(g), len(msg), err)
+				}
+			}
+			return ""
+		}
+		x, err := p.Dial("echo")
+		if err != nil {
+			rt.Fatalf("dial: %v", err)
+		}
+		if m := roundTrips(x, 1, 1); m != "" {
+			fail("first connection: " + m)
+		}
+		x.Close()
+		before := p.Relay.Connections()
+		results := make([]string, k)
+		var wg sync.WaitGroup
+		open := func() {
+			start := make(chan struct{})
+			for i := 0; i < k; i++ {
+				wg.Add(1)
+				go func(i int) {
+					defer wg.Done()
+					<-start
+					c, err := p.Dial("echo")
+					if err != nil {
+						results[i] = "dial: " + err.Error()
+						return
+					}
+					defer c.Close()
+					results[i] = roundTrips(c, uint64(100*(i+1)), 5)
+				}(i)
+			}
+			close(start)
+		}
+		switch loss {
+		case "cut-rst":
+			p.Relay.Cut(true)
+			time.Sleep(50 * time.Millisecond)
+			open()
+		case "cut-fin":
+			p.Relay.Cut(false)
+			time.Sleep(50 * time.Millisecond)
+			open()
+		default:
+			// the carrier goes silent, the opens hang on the old session, then the carrier is cut
+			p.Relay.DelayUp, p.Relay.DelayDown = time.Hour, time.Hour
+			open()
+			time.Sleep(400 * time.Millisecond)
+			p.Relay.DelayUp, p.Relay.DelayDown = 0, 0
+			p.Relay.Cut(true)
+		}
+		wg.Wait()
+		for i, r := range results {
+			if r != "" {
+				fail(fmt.Sprintf("connection %d of %d opened at the same instant after the carrier was lost (%s): %s; results of all: %v", i, k, loss, r, results))
+			}
+		}
+		if n := p.Relay.Connections() - before; n > 1 {
+			fail(fmt.Sprintf("%d connections opened at the same instant after the carrier was lost made the client dial %d new physical connections, want 1", k, n))
+		}
+		vlib.Rec.Case(fmt.Sprintf("recovery %v", d), true, []string{"concurrent-opens-after-carrier-loss", "carrier:" + carrier, "loss:" + loss}, func() interface{} { return d })
+	})
+}
